@@ -218,6 +218,20 @@ func (r *Run) verifAPI(fn *ssa.Function, args []Value) (Value, bool) {
 	case "verifMonitor":
 		r.setMonitor(args[0].(*Term).Val != 0)
 		return Tuple{}, true
+	case "verifUF32":
+		name := r.strArg(args[0])
+		sl := args[1].(SliceV)
+		var sb strings.Builder
+		sb.WriteString(name)
+		for _, b := range r.regionBytes(sl.P, sl.Len) {
+			fmt.Fprintf(&sb, "|%d", b.ID)
+		}
+		if v, ok := r.ufMemo[sb.String()]; ok {
+			return v, true
+		}
+		v := r.freshVar("uf_"+name, 32)
+		r.ufMemo[sb.String()] = v
+		return v, true
 	case "verifAnd":
 		return ts.And(args[0].(*Term), args[1].(*Term)), true
 	case "verifOr":
